@@ -59,9 +59,11 @@ def run(tier, replay=None):
     run.add_tlc(res)
     meta = [r for r in res.replays if r.get("meta")][0]
     cfgs, edges, inits = {}, {}, set()
+    drifts = set()
     for e in res.replays:
         if e.get("meta"):
             continue
+        drifts.add(e.get("drift", -1))
         k = key(e["cfg"])
         cfgs[k] = e["cfg"]
         if e["op"] == "init":
@@ -70,6 +72,8 @@ def run(tier, replay=None):
             edges.setdefault(key(e["from"]), set()).add(k)
     n = len(cfgs)
     npairs = sum(len(v) for v in edges.values())
+    if drifts != {-1, 0, 1, 2, 3, 4, 5}:
+        raise C.ToolError("LevelGate did not explore the drift action: %s" % sorted(drifts))
     if n < 5 or npairs != n * n or len(inits) != n:
         raise C.ToolError("unexpected LevelGate graph: %d configs, %d pairs, %d inits" % (n, npairs, len(inits)))
     steps_done = 0
@@ -79,7 +83,14 @@ def run(tier, replay=None):
     for si, s in enumerate(starts):
         walk = euler(order, {k: sorted(v) for k, v in edges.items()}, s)
         fn = ["init_config", "init_with_handler"][si % 2]
-        steps_done += child(run, "c02_walk%d" % si, meta, [cfgs[k] for k in walk], fn)
+        # between reconfigurations the environment may move the facade's maximum (Drift); the next
+        # set_config must install the configuration's maximum again
+        steps = []
+        for wi, k in enumerate(walk):
+            st = dict(cfgs[k])
+            st["drift"] = rnd.choice([-1, 0, 1, 2, 3, 4, 5]) if wi > 0 else -1
+            steps.append(st)
+        steps_done += child(run, "c02_walk%d" % si, meta, steps, fn)
     for si, s in enumerate(order):
         steps_done += child(run, "c02_raw%d" % si, meta, [cfgs[s]], "init_raw")
     # 2. long seeded histories through the configuration space of Routing.tla
